@@ -908,6 +908,8 @@ class BlockNode(AstNode, NamespaceMixin):
     def __init__(self, parent, format=None, options=None, **kwargs):
         # From arguments
         self.parent = parent
+        # A block is transparent: it is the same kind of scope as its parent.
+        self.nodename = parent.nodename
 
         self.classes = parent.classes
         self.enums = parent.enums
